@@ -65,11 +65,11 @@ inline void parse_label(const std::string &label, std::string &name, std::vector
 }
 
 // Model concept:  void reset();  bool apply(name, args) (false = label not executable here);
-//                 std::string project();  std::string selfcheck() ("" = ok)
+//                 std::string project();  std::string selfcheck() ("" = ok);  bool beyond_bound()
 template <typename Model>
 struct Walker {
     Graph &g;
-    long   edges_run{0}, labels_run{0}, mismatches{0}, skipped{0}, states_reached{0}, distinct_edges{0};
+    long   pruned{0}, edges_run{0}, labels_run{0}, mismatches{0}, skipped{0}, states_reached{0}, distinct_edges{0};
     explicit Walker(Graph &gr) : g(gr) {}
 
     void run(const char *tag) {
@@ -84,9 +84,9 @@ struct Walker {
         std::string        name;
         std::vector<long>  args;
         long               case_no = 0;
-        while (!stack.empty()) {
-            int s = stack.back();
-            stack.pop_back();
+        size_t head = 0;
+        while (head < stack.size()) {
+            int s = stack[head++];  // breadth first: shortest replay paths
             ++states_reached;
             for (auto &kv : g.out[s]) {
                 begin_case(case_no++);
@@ -116,6 +116,10 @@ struct Walker {
                 int         hit = -1;
                 for (int d : kv.second)
                     if (g.proj[d] == obs) { hit = d; break; }
+                if (hit < 0 && sc.empty() && m.beyond_bound()) {  // successor pruned by the model's state constraint
+                    ++pruned;
+                    continue;
+                }
                 if (hit < 0 || !sc.empty()) {
                     ++mismatches;
                     printf("MISMATCH %s path=", tag);
@@ -137,8 +141,8 @@ struct Walker {
             }
         }
         alarm(0);
-        printf("WALK %s states=%ld labels=%ld edges=%ld skipped=%ld mismatches=%ld\n", tag, states_reached, labels_run,
-               edges_run, skipped, mismatches);
+        printf("WALK %s states=%ld labels=%ld edges=%ld skipped=%ld pruned=%ld mismatches=%ld\n", tag, states_reached, labels_run,
+               edges_run, skipped, pruned, mismatches);
     }
 };
 } // namespace vf
